@@ -105,11 +105,8 @@ def _decorators_of_type(node: ast.FunctionDef, name: str) -> Iterable[ast.AST]:
 def move_staticmethod_static_scope(source: str, preserve: Collection[str]) -> str:
     root = core.parse(source)
 
-    attributes_to_preserve = set()
-    for name in preserve:
-        if "." in name:
-            *_, property_name = name.split(".")
-            attributes_to_preserve.add(property_name)
+    # Preserved names are Class.method, or the bare name that another file uses to reach the method
+    attributes_to_preserve = {name.split(".")[-1] for name in preserve}
 
     class_function_names = set()
     class_attribute_accesses = set()
